@@ -36,7 +36,7 @@ func c16Gen(rt *rapid.T) c16Case {
 		// a catalog that alone is larger than the cache: many tables with many columns
 		c.Cache = rapid.IntRange(12, 16).Draw(rt, "cache_small")
 		maxRows = 4 * (c.Cache - 6)
-		cfg.MaxTables, cfg.MaxCols, cfg.MinStmts = 14, 5, 40
+		cfg.MaxTables, cfg.MaxCols, cfg.MinStmts, cfg.NoWide = 14, 5, 40, true
 	}
 	db := model.NewDB()
 	if rapid.IntRange(0, 19).Draw(rt, "rewrite") == 5 {
